@@ -1,0 +1,12 @@
+//go:build verif
+
+// Contracts for package httpclient, checked by /verif/govc (see /verif/DESIGN.md).
+// This file contains only comments: it adds no code to any build.
+
+package httpclient
+
+// Get: ASSUMED (not verified): returns a client or nil; touches only the
+// package's own client cache.
+//@ func Get
+//@   trusted
+//@   props    C15
